@@ -29,6 +29,11 @@ def handle (line : String) : String :=
     | _, _, _, _ => "bad-op"
   | ["hmac256", k, m] => hex2 (fun k m => toHex (hmacSha256 k m)) k m
   | ["sha512", a] => hex1 (fun x => toHex (sha512 x)) a
+  | ["hmac512", k, m] => hex2 (fun k m => toHex (hmacSha512 k m)) k m
+  | ["pbkdf2", pw, salt, iters, dk] =>
+    match ofHex pw, ofHex salt, iters.toNat?, dk.toNat? with
+    | some pw, some salt, some iters, some dk => toHex (pbkdf2Sha512 pw salt iters dk)
+    | _, _, _, _ => "bad-op"
   | _ => "bad-op"
 
 def main (args : List String) : IO Unit :=
